@@ -67,16 +67,23 @@ package network
 //@   ensures [absentIsNil] (forall i :: 0 <= i && i < len(n.allNodesMIMO) ==> n.allNodesMIMO[i].Id != id) ==> isNilIface(result)
 //@   ensures [found] !isNilIface(result) ==> typeIs(result, "*NNode") && asPtr(result, "*NNode") != nil && asPtr(result, "*NNode").Id == id
 //@   ensures [present] (exists i :: 0 <= i && i < len(n.allNodesMIMO) && n.allNodesMIMO[i].Id == id) ==> !isNilIface(result)
+//@ pred uniqueNodeIds(n *Network) = forall i, j :: 0 <= i && i < j && j < len(n.allNodes) ==> n.allNodes[i].Id != n.allNodes[j].Id
+// every link listed by a node of the network starts at a node of the network
+//@ pred sourcesInNet(n *Network) = forall i :: 0 <= i && i < len(n.allNodes) ==> (forall k :: 0 <= k && k < len(n.allNodes[i].Incoming) ==> (exists j :: 0 <= j && j < len(n.allNodes) && n.allNodes[j] == n.allNodes[i].Incoming[k].InNode))
 //@ func (*Network).edgeBetween
 //@   props C11
 //@   requires n != nil && netNodesWF(n) && linkEndsWF()
 //@   modifies nothing
+//@   ensures [directedComplete] directed && len(n.controlNodes) == 0 && uniqueNodeIds(n) && sourcesInNet(n) && result == nil ==> (forall i :: 0 <= i && i < len(n.allNodes) && n.allNodes[i].Id == vid ==> (forall k :: 0 <= k && k < len(n.allNodes[i].Incoming) ==> n.allNodes[i].Incoming[k].InNode.Id != uid))
 //@   ensures [directedFound] directed && len(n.controlNodes) == 0 && result != nil ==> result.InNode.Id == uid && result.OutNode.Id == vid
 //@   ensures [undirectedFound] !directed && len(n.controlNodes) == 0 && result != nil ==> (result.InNode.Id == uid && result.OutNode.Id == vid) || (result.InNode.Id == vid && result.OutNode.Id == uid)
 //@   loop 1:
 //@     invariant -1 <= #idx && #idx < len(n.allNodes)
 //@     invariant uNode != nil ==> uNode.Id == uid
 //@     invariant vNode != nil ==> vNode.Id == vid
+//@     invariant uNode == nil ==> (forall i :: 0 <= i && i <= #idx ==> n.allNodes[i].Id != uid)
+//@     invariant vNode == nil ==> (forall i :: 0 <= i && i <= #idx ==> n.allNodes[i].Id != vid)
+//@     invariant vNode != nil ==> (exists i :: 0 <= i && i <= #idx && n.allNodes[i] == vNode)
 //@   loop 2:
 //@     invariant -1 <= #idx && #idx < len(n.controlNodes)
 //@   loop 3:
@@ -87,18 +94,22 @@ package network
 //@     invariant -1 <= #idx
 //@   loop 6:
 //@     invariant -1 <= #idx
+//@     invariant forall k :: 0 <= k && k <= #idx ==> vNode.Incoming[k].InNode.Id != uid
 //@   loop 7:
 //@     invariant -1 <= #idx
+//@     invariant directed ==> (forall k :: 0 <= k && k < len(vNode.Incoming) ==> vNode.Incoming[k].InNode.Id != uid)
 //@ func (*Network).Edge
 //@   props C11
 //@   requires n != nil && netNodesWF(n) && linkEndsWF()
 //@   modifies nothing
+//@   ensures [complete] len(n.controlNodes) == 0 && uniqueNodeIds(n) && sourcesInNet(n) && isNilIface(result) ==> (forall i :: 0 <= i && i < len(n.allNodes) && n.allNodes[i].Id == vid ==> (forall k :: 0 <= k && k < len(n.allNodes[i].Incoming) ==> n.allNodes[i].Incoming[k].InNode.Id != uid))
 //@   ensures [absentIsNil] isNilIface(result) || (typeIs(result, "*Link") && asPtr(result, "*Link") != nil)
 //@   ensures [found] !isNilIface(result) && len(n.controlNodes) == 0 ==> asPtr(result, "*Link").InNode.Id == uid && asPtr(result, "*Link").OutNode.Id == vid
 //@ func (*Network).WeightedEdge
 //@   props C11
 //@   requires n != nil && netNodesWF(n) && linkEndsWF()
 //@   modifies nothing
+//@   ensures [complete] len(n.controlNodes) == 0 && uniqueNodeIds(n) && sourcesInNet(n) && isNilIface(result) ==> (forall i :: 0 <= i && i < len(n.allNodes) && n.allNodes[i].Id == vid ==> (forall k :: 0 <= k && k < len(n.allNodes[i].Incoming) ==> n.allNodes[i].Incoming[k].InNode.Id != uid))
 //@   ensures [absentIsNil] isNilIface(result) || (typeIs(result, "*Link") && asPtr(result, "*Link") != nil)
 //@   ensures [found] !isNilIface(result) && len(n.controlNodes) == 0 ==> asPtr(result, "*Link").InNode.Id == uid && asPtr(result, "*Link").OutNode.Id == vid
 //@ func (*Network).Weight
@@ -106,6 +117,12 @@ package network
 //@   requires n != nil && netNodesWF(n) && linkEndsWF()
 //@   modifies nothing
 //@   ensures [absent] !ok ==> w == 0.0
+//@   ensures [complete] len(n.controlNodes) == 0 && uniqueNodeIds(n) && sourcesInNet(n) && !ok ==> (forall i :: 0 <= i && i < len(n.allNodes) && n.allNodes[i].Id == yid ==> (forall k :: 0 <= k && k < len(n.allNodes[i].Incoming) ==> n.allNodes[i].Incoming[k].InNode.Id != xid))
+//@ func (*Network).HasEdgeFromTo
+//@   props C11
+//@   requires n != nil && netNodesWF(n) && linkEndsWF()
+//@   modifies nothing
+//@   ensures [complete] len(n.controlNodes) == 0 && uniqueNodeIds(n) && sourcesInNet(n) && !result ==> (forall i :: 0 <= i && i < len(n.allNodes) && n.allNodes[i].Id == vid ==> (forall k :: 0 <= k && k < len(n.allNodes[i].Incoming) ==> n.allNodes[i].Incoming[k].InNode.Id != uid))
 //@ func (*Network).NodeCount
 //@   props C11
 //@   requires n != nil
@@ -132,7 +149,7 @@ package network
 //@   ensures [fresh] fresh(result)
 //@   ensures [runtime] rtZero(result) && result.ActivationSum == 0.0
 //@   ensures [empty] fresh(result.Incoming) && fresh(result.Outgoing) && len(result.Incoming) == 0 && len(result.Outgoing) == 0 && result.Trait == nil && result.PhenotypeAnalogue == nil && len(result.Params) == 0
-//@   ensures [defaults] result.Id == 0 && result.NeuronType == HiddenNeuron && result.ActivationType == math.SigmoidSteepenedActivation
+//@   ensures [defaults] result.Id == 0 && result.NeuronType == HiddenNeuron && result.ActivationType == nmath.SigmoidSteepenedActivation
 //@ func (*NNode).Flushback
 //@   props C13
 //@   requires n != nil
